@@ -329,6 +329,18 @@ pub fn run(ctx: &Ctx, st: &mut Stats) {
             st.eval(&C::ab(K::OraVsTs, a, 0), check);
         }
     });
+    let ystep = ctx.tier.pick(1999, 31, 1);
+    ctx.par(st, "history: shared operations on A then on A+delta, delta -70..=70, A around every month end", true, 0, (9999 + ystep - 1) / ystep, |st, i, _| {
+        let y = 1 + i * ystep;
+        for a in crate::pools::month_end_days(y) {
+            for delta in -70i64..=70 {
+                let b = a + delta;
+                if (MIN_DAY as i64..=MAX_DAY as i64).contains(&b) && (delta.abs() >= 27 || (a + delta) % 5 == 0) {
+                    st.eval_hist(mix(a as u64, b as u64), vec![C::ab(K::DateVsTs, a, 0), C::ab(K::DateVsTs, b, 0)], check);
+                }
+            }
+        }
+    });
     cold_threads(st, "history: first call on a fresh thread (sentinel-like operands: -1, 0, 1 ...)", {
         let mut v = vec![];
         for b in [-1i64, 0, 1, -2, 2, 999_999, -999_999, 1_000_000, -1_000_000, i32::MAX as i64, i32::MIN as i64] {
